@@ -523,6 +523,8 @@ class ConfigParser(object):
       return False, None
 
     while continue_parsing:
+      if token_value and token_value != '-':
+        token_value += ' '  # Keep adjacent string literals apart ('' 'a').
       token_value += self._current_token.string
 
       try:
